@@ -99,6 +99,20 @@ def gen_case(rng):
     else:
         t_ref, trk = False, "false"
     rv = rvv * ru
+    dt_kind = "f8"
+    if nf_kind == "none" and not cov and rng.random() < 0.15:
+        # other numeric dtypes / memory layouts of the caller's arrays
+        dt_kind = str(rng.choice(["f4", "int", "strided"]))
+        if dt_kind == "f4":
+            rv = np.asarray(rvv, dtype=np.float32) * ru
+            err = np.asarray(err.value, dtype=np.float32) * eu
+        elif dt_kind == "int":
+            rv = (rng.permutation(n) * 3 + 7).astype(np.int64) * ru
+            err = rng.integers(1, 9, n).astype(np.int64) * eu
+        else:
+            big = np.zeros(2 * n)
+            big[::2] = rvv
+            rv = big[::2] * ru
     scalar = False
     if n == 1 and not cov and nf_kind == "none" and tkind == "float" and rng.random() < 0.5:
         # bare scalars instead of length-1 arrays (a scalar *Time* is refused loudly by the constructor, which
@@ -107,7 +121,7 @@ def gen_case(rng):
         t_in = float(tt[0])
         rv = rv[0]
         err = err[0]
-    cls = (n > 1, tkind, str(ru), str(eu), cov, nf_kind, trk, clean, dup, scalar)
+    cls = (n > 1, tkind, str(ru), str(eu), cov, nf_kind, trk, clean, dup, scalar, dt_kind)
     return dict(t=t_in, rv=rv, rv_err=err, t_ref=t_ref, clean=clean), cls, dict(
         n=n, tkind=tkind, rv_unit=str(ru), err_unit=str(eu), cov=cov, nonfinite=nf_kind, t_ref=trk,
         clean=clean, dup=dup, t_head=np.asarray(tt[:5]), rv_head=rvv[:5])
